@@ -56,6 +56,7 @@ class Unit:
     extra_flags: list = field(default_factory=list)   # extra cbmc flags
     extra_srcs: list = field(default_factory=list)
     fallback: Optional[str] = None  # name of the bounded fall-back unit used as counterexample finder
+    deep: Optional[dict] = None     # field overrides for a deeper variant "<name>_deep" that runs in the thorough tier only
     replay: Optional[str] = None    # native replay source (relative to /verif); None = no native replay
     replay_srcs: list = field(default_factory=list)   # real /repo sources to link into the replay binary
     note: str = ""
